@@ -304,6 +304,8 @@ class E(Model):
         return E("cmp", "Eq", self, other)  # `series == scalar` is an element-wise comparison
 
     def getitem(self, I, key):
+        if isinstance(key, E) and key.t and key.t[0] in ("cmp", "rcmp", "not"):
+            return E("loc", self, key)  # df[mask] and df.loc[mask] select the same rows
         return E("getitem", self, key)
 
     def compare(self, I, op, other):
@@ -420,7 +422,7 @@ def h_filters(I, cn_fi, dup_fi, cols_fi):
         out = I.call_function(cn_fi, [df], {}, force_inline=True)
         dsl.cover(I, "filter.zero-copy-number")
         want = E("loc", df, E("cmp", "Gt", E("getitem", df, "major_cn"), 0))
-        P.check("filter.zero-copy-number", isinstance(out, E) and _same(out.t, want.t), "exactly the rows with major_cn > 0 are kept", kind="post")
+        P.check("filter.zero-copy-number", isinstance(out, E) and _same(out.t, want.t), "exactly the rows with major_cn > 0 are kept", kind="term")
     elif which == 1:
         S = alg.sym("n_samples", "Int")
         P.assume(P.z(S) >= 1)
@@ -430,7 +432,7 @@ def h_filters(I, cn_fi, dup_fi, cols_fi):
         size = E("transform", E("getitem", E("groupby", df, E("getitem", df, "mutation_id")), "sample_id"), "size")
         ok = isinstance(out, E) and out.t[0] == "loc" and out.t[1] is df and isinstance(out.t[2], E) and out.t[2].t[0] == "cmp" and out.t[2].t[1] == "Eq" and _same(out.t[2].t[2].t, size.t) \
             and isinstance(out.t[2].t[3], Num) and (out.t[2].t[3] - S).is_zero()
-        P.check("filter.rows-per-mutation", ok, "a row is kept exactly when its mutation has as many rows as there are samples (with M-PIGEON and the excluded degenerate mix: one row in every sample)", kind="post")
+        P.check("filter.rows-per-mutation", ok, "a row is kept exactly when its mutation has as many rows as there are samples (with M-PIGEON and the excluded degenerate mix: one row in every sample)", kind="term")
     else:
         S = alg.sym("n_samples", "Int")
         P.assume(P.z(S) >= 1)
@@ -456,7 +458,7 @@ def h_filters(I, cn_fi, dup_fi, cols_fi):
             key, v = e[2], e[3]
             if isinstance(key, tuple) and len(key) == 2 and isinstance(key[0], slice) and key[0] == slice(None, None, None):
                 got.append((key[1], float(I.to_num(v).const_value()) if I.to_num(v).is_const() else None))
-        P.check("filter.defaults", got == want and all(e[1] is df for e in sets), "a missing error_rate column is filled with 0.001 and a missing tumour_content column with 1.0, for every row; present columns are left alone", kind="post")
+        P.check("filter.defaults", got == want and all(e[1] is df for e in sets), "a missing error_rate column is filled with 0.001 and a missing tumour_content column with 1.0, for every row; present columns are left alone", kind="term")
 
 
 def h_load_pyclone(I, fi):
@@ -477,7 +479,7 @@ def h_load_pyclone(I, fi):
         return
     smp = log[2][2]
     ok = isinstance(smp, tuple) and smp[0] == "sorted" and isinstance(smp[1], E) and _same(smp[1].t, E("unique", E("getitem", E("no-zero-cn"), "sample_id")).t)
-    P.check("load.samples-sorted-after-the-copy-number-filter", ok, "the sample list is the sorted distinct sample ids of the rows that survive the copy-number filter", kind="post")
+    P.check("load.samples-sorted-after-the-copy-number-filter", ok, "the sample list is the sorted distinct sample ids of the rows that survive the copy-number filter", kind="term")
     P.check("load.stages-chained", log[0][1] == ("file",) and _same(log[1][1].t, E("raw").t) and _same(log[2][1].t, E("no-zero-cn").t) and _same(log[3][1].t, E("complete").t) and log[3][2] is smp
             and _same(log[4][1].t, E("complete").t) and log[4][2] is smp and isinstance(out, tuple) and out[0] == ("loaded",) and out[1] is smp,
             "every stage works on the result of the previous one with the same sample list; (loaded data, samples) is returned", kind="post")
